@@ -5,5 +5,5 @@ R=${REPO2:-/tmp/repo2}
 [ -d $R ] || git clone -q /repo $R
 cd /verif
 git -C $R checkout -q -- . ; git -C $R clean -fdq -- . ; git -C $R apply $d || exit 2
-for p in "$@"; do ./bin/patcheck -repo $R -prop $p -tier quick -evidence /tmp/ev_try.json 2>&1 | grep -E "violated|undecided|instances <|panic|integrity|^patcheck" | cut -c1-${CLIP:-600}; done
+for p in "$@"; do ${PATCHECK:-./bin/patcheck} -repo $R -prop $p -tier quick -evidence /tmp/ev_try.json 2>&1 | grep -E "violated|undecided|instances <|panic|integrity|^patcheck" | cut -c1-${CLIP:-600}; done
 git -C $R checkout -q -- . ; git -C $R clean -fdq -- .
